@@ -180,12 +180,13 @@ where
                         }
                     } else {
                         match this.version {
-                            Version::V1 =>
+                            Version::V1 => {
                                 *this.state = State::FlushProtocol {
                                     io,
                                     protocol,
                                     header_received,
-                                },
+                                }
+                            }
                             // This is the only effect that `V1Lazy` has compared to `V1`:
                             // Optimistically settling on the only protocol that
                             // the dialer supports for this negotiation. Notably,
@@ -209,12 +210,13 @@ where
                     protocol,
                     header_received,
                 } => match Pin::new(&mut io).poll_flush(cx)? {
-                    Poll::Ready(()) =>
+                    Poll::Ready(()) => {
                         *this.state = State::AwaitProtocol {
                             io,
                             protocol,
                             header_received,
-                        },
+                        }
+                    }
                     Poll::Pending => {
                         *this.state = State::FlushProtocol {
                             io,
